@@ -1369,7 +1369,9 @@ func (store *KeyStore) destroyRotatedKeyByIndex(path string, index int) error {
 		return err
 	}
 
-	return nil
+	// A cached list of current and rotated file names still names the removed file: reading all
+	// keys through it would fail on the missing file and hide the surviving keys as well.
+	return store.refreshCachedHistoricalPrivateKeyFilenames(filepath.Clean(path))
 }
 
 // DescribeKeyFile describes key by its purpose path for V1 and V2 keystore
